@@ -12,7 +12,7 @@
  *   econ 0|1                                           (no output)
  *   cmap is16 count v...                               (no output)
  *   recmap ready is16 count v...  (screen->colourMap changed, then rfbSetClientColourMap(cl,0,0))
- *              -> recmap ret=1 tbl=<bytes> tsum=<fnv64>
+ *              -> recmap ret=1 mod=full|empty tbl=<bytes> tsum=<fnv64>
  *   setupmsg be_byte tc_byte      like setup, but cf is delivered by a real SetPixelFormat message whose
  *                                 bigEndian / trueColour bytes are the given raw values
  *   newfb bps spp bytespp         rfbNewFramebuffer(...) -> newfb sf=<10 ints> client ok=1 fn=.. cf=.. msg=.. tbl=.. tsum=..
@@ -251,8 +251,15 @@ int main(void) {
       screen->colourMap.is16 = cm_is16; screen->colourMap.count = cm_count;
       if (cm_is16) screen->colourMap.data.shorts = cm_shorts; else screen->colourMap.data.bytes = cm_bytes;
       cl->readyForSetColourMapEntries = ready ? TRUE : FALSE;
+      sraRgnMakeEmpty(cl->modifiedRegion);
       ret = rfbSetClientColourMap(cl, 0, 0);
       printf("recmap ret=%d", ret ? 1 : 0);
+      { /* did it mark the whole screen as modified? */
+        sraRegionPtr full = sraRgnCreateRect(0, 0, screen->width, screen->height);
+        sraRgnSubtract(full, cl->modifiedRegion);
+        printf(" mod=%s", sraRgnEmpty(cl->modifiedRegion) ? "empty" : (sraRgnEmpty(full) ? "full" : "partial"));
+        sraRgnDestroy(full);
+      }
       if (cl->translateFn == rfbTranslateNone || !cl->translateLookupTable) printf(" tbl=- tsum=-\n");
       else {
         size_t tn = malloc_usable_size(cl->translateLookupTable);
